@@ -417,6 +417,26 @@ impl ReadXml for Reply {
                                 tracing::debug!(?tag);
                                 this = Some(Self::Ok);
                             }
+                            // `<ok></ok>` is the same element as `<ok/>`
+                            (ResolveResult::Bound(xmlns::BASE), Event::Start(tag))
+                                if tag.local_name().as_ref() == b"ok"
+                                    && this.is_none()
+                                    && errors
+                                        .iter()
+                                        .all(|err| err.severity() != Severity::Error) =>
+                            {
+                                tracing::debug!(?tag);
+                                match reader.read_event()? {
+                                    Event::End(end) if end == tag.to_end() => {
+                                        this = Some(Self::Ok);
+                                    }
+                                    event => {
+                                        return Err(ReadError::UnexpectedXmlEvent(
+                                            event.into_owned(),
+                                        ))
+                                    }
+                                }
+                            }
                             (ResolveResult::Bound(ns), Event::Start(tag))
                                 if ns == xmlns::BASE
                                     && tag.local_name().as_ref() == b"rpc-error"
